@@ -131,6 +131,11 @@ async function build (tier) {
     add({ leaves: r2.leaves.map((l) => ({ fam: 'D', key: 'Dh¦' + l.pick.op + '¦' + l.pick.sctx, code: G.render({ op: l.pick.op, exprctx: '@@', stmtctx: l.pick.sctx, scope: 'sloppy' }), shape: 'hook-reentry:' + l.pick.sctx, reenter: true, config: 'FULL' })), stats: r2.stats })
   }
   add(familyE())
+  { // real library files: static scope / liveness analysis only
+    const S = require('../lib/static_driver')
+    const c = S.corpusLeaves(tier, ['FULL'], tier === 'thorough' ? 0 : 60)
+    add({ leaves: c.leaves.map((l) => Object.assign(l, { fam: 'corpus', code: S.leafCode(l) })), stats: c.stats })
+  }
   return { leaves, stats, bound: { static_families: 'A,B(k=' + (tier === 'thorough' ? 2 : 1) + '),C,G', d_shapes: Object.keys(D_SHAPES).length, e_placements: Object.keys(E_PLACEMENTS).length + Object.keys(E_FILE_LEVEL).length, e_names: E_SUFFIXES.length }, alphabets: { d_shapes: Object.keys(D_SHAPES), e_placements: Object.keys(E_PLACEMENTS).concat(Object.keys(E_FILE_LEVEL)), e_names: E_SUFFIXES } }
 }
 
